@@ -166,6 +166,9 @@ def take_choice(ctx, it):
     if i >= NCHOICE:
         raise Inconclusive("more than %d nondeterministic choices in one step" % NCHOICE)
     ctx.choice_n += 1
+    rc = getattr(ctx, "replay_choices", None)
+    if rc is not None:
+        return z3.BitVecVal(rc[i], 8)
     return it.system.choice_const(i)
 
 
